@@ -24,7 +24,7 @@ NOTES = {
 }
 rows = []
 for p in sorted(os.listdir(os.path.join(V, "_incoming"))):
-    for v in ("A", "B", "C", "D", "E", "F", "G", "H", "I", "J"):
+    for v in "ABCDEFGHIJKLMNOPQRSTUVWXYZ":
         src = os.path.join(V, "_incoming", p, v)
         if not os.path.isdir(src):
             continue
